@@ -236,10 +236,10 @@ type condXlat struct {
 	ver  map[types.Object]int // version of each local at the point of translation (nil = all zero)
 	// Canon lets a rule name atoms canonically (e.g. map `opElecID == nil` to
 	// atom "op.nil"). It receives the canonical default key.
-	uniq    *int
-	pure    func(call *ast.CallExpr) bool
-	defs    map[types.Object]string // current defining term of locals assigned from calls
-	callOrd map[*ast.CallExpr]string
+	uniq     *int
+	pure     func(call *ast.CallExpr) bool
+	defs     map[types.Object]string // current defining term of locals assigned from calls
+	callOrd  map[*ast.CallExpr]string
 	pathMode bool // translating a condition on a path: locals assigned from calls are named by the path's defs
 }
 
@@ -375,6 +375,20 @@ func (x *condXlat) termDepth(e ast.Expr, depth int) (string, bool) {
 		return b + "[" + i + "]", ok1 && ok2
 	case *ast.BasicLit:
 		return "const:" + t.Value, true
+	case *ast.CompositeLit:
+		// slice / array literals of terms: [a,b]
+		if tv, ok := x.info.Types[t]; ok {
+			if _, isSlice := tv.Type.Underlying().(*types.Slice); isSlice {
+				var es []string
+				ok := true
+				for _, el := range t.Elts {
+					s, k := x.termDepth(el, depth+1)
+					es = append(es, s)
+					ok = ok && k
+				}
+				return "[" + strings.Join(es, ",") + "]", ok
+			}
+		}
 	}
 	return types.ExprString(e), false
 }
